@@ -107,7 +107,11 @@ func (v *FnVC) assumeLemma(name string) {
 
 // GenLemma produces the proof obligation(s) of a lemma.
 func (g *Gen) GenLemma(l *Lemma, sf *SpecFile, pkg *types.Package) (vc *FnVC, err error) {
-	v := &FnVC{g: g, spec: &FuncSpec{Opts: map[string]string{}}, sf: sf, declared: map[string]string{}, counters: map[string]int{},
+	lopts := map[string]string{}
+	for k, x := range l.Opts {
+		lopts[k] = x
+	}
+	v := &FnVC{g: g, spec: &FuncSpec{Opts: lopts}, sf: sf, declared: map[string]string{}, counters: map[string]int{},
 		heapSorts: map[string]string{}, usedSpecs: map[string]bool{}, pkg: pkg, name: "lemma:" + l.Name, refHeaps: map[string]bool{}}
 	defer func() {
 		if r := recover(); r != nil {
